@@ -487,7 +487,8 @@ fn client_worker(
                 nontrivial.insert(fnv64(serde_json::to_string(&(h.n_towers, h.n_commitments, &h.ops)).unwrap().as_bytes()));
             }
             if want_digests {
-                out.digests.insert(i, res.stats.digest);
+                // (client histories use i * 16 + 1.. for their executions; slot 0 is free)
+                out.digests.insert(i * 16, res.stats.digest);
             }
             if let Some(f) = res.found.first() {
                 let sig = client_signature(spec.id, f);
@@ -1336,6 +1337,15 @@ pub fn cmd_one(args: &[String]) -> i32 {
     let idx: u64 = args[1].parse().unwrap();
     if spec.engine == Engine::Client {
         let seed = derive(root_seed(), &format!("{}-client", spec.id), idx);
+        if spec.id == "C18" && idx % 3 == 2 {
+            let h = crate::store::gen_store_history(seed);
+            println!("{}", serde_json::to_string(&h).unwrap());
+            for k in 0..3 {
+                let res = crate::store::run_store_in_thread(&h);
+                println!("run {k}: digest={:x} ops={} found={:?}", res.stats.digest, res.stats.ops, res.found.iter().map(|f| f.clause.clone()).collect::<Vec<_>>());
+            }
+            return 0;
+        }
         let h = crate::client_check::gen_client_history(spec.id, seed);
         println!("{}", serde_json::to_string(&h).unwrap());
         let t0 = Instant::now();
